@@ -4,6 +4,7 @@
 -/
 import CorgiProofs.LinearTags
 import CorgiProofs.LinearSum
+import CorgiProofs.LinearMatmul
 
 set_option linter.unusedSectionVars false
 set_option linter.unusedVariables false
@@ -19,6 +20,10 @@ def TagShape (tag : OpTag S) (c : List (Tensor S)) (self : Tensor S) (nd : List 
   | .exp | .sigmoid => ∃ a, c = [a] ∧ OperandOK a ∧ nd = a.dims ∧ self.vals.length = prod nd
   | .reshape => ∃ a, c = [a] ∧ OperandOK a ∧ DimsOK nd ∧ prod nd = prod a.dims
   | .sum k => ∃ a, c = [a] ∧ OperandOK a ∧ 1 ≤ k ∧ k ≤ a.dims.length ∧ nd = a.dims.take (a.dims.length - k) ++ [1]
+  | .matmul ta tb => ∃ a b cc la lb a1 a2 b1 b2, c = [a, b, cc] ∧ a.dims = la ++ [a1, a2] ∧ b.dims = lb ++ [b1, b2] ∧
+      a.WF ∧ b.WF ∧ Compat la lb = true ∧ (if ta then a1 else a2) = (if tb then b2 else b1) ∧
+      (∀ d ∈ cc.dims, 1 ≤ d) ∧ Fits cc.dims nd = true ∧
+      nd = bdims la lb ++ [if ta then a2 else a1, if tb then b1 else b2]
   | _ => False
 
 variable [AddLaws S] [MulLaws S]
@@ -53,7 +58,12 @@ theorem vjp_lin (tag : OpTag S) (c : List (Tensor S)) (self : Tensor S) (t : Lis
     match k, hs with
     | 2, hs => obtain ⟨a, rfl, ha, rfl⟩ := hs; obtain ⟨f0, rfl⟩ := one ht; exact vjp_lin_custom2 a self f0 ha
   | sum k => obtain ⟨a, rfl, ha, hk, hkr, rfl⟩ := hs; obtain ⟨f0, rfl⟩ := one ht; exact vjp_lin_sum k a self f0 ha hk hkr
-  | matmul ta tb => exact hs.elim
+  | matmul ta tb =>
+    obtain ⟨a, b, cc, la, lb, a1, a2, b1, b2, rfl, hda, hdb, hwa, hwb, hc, hin, hcc, hfc, rfl⟩ := hs
+    match t, ht with
+    | [f0, f1, f2], _ =>
+      have := vjp_lin_matmul ta tb a b cc self f0 f1 f2 la lb a1 a2 b1 b2 hda hdb hwa hwb hc hin hcc hfc
+      simpa using this
   | unroll d r cc sr sc fr fc => exact hs.elim
   | expand => exact hs.elim
 
